@@ -7,6 +7,14 @@ import ZV.Model.C24
      n connections, one after the other, through ONE client session cache (ccache=c: this connection's client
      Config uses it) against servers whose ticket keys are SetSessionTicketKeys(list) (x = SessionTicketsDisabled)
      → per connection `ok v= s= a= can= r=<0|1 DidResume> t=<k|p|d cache entry kept/put/deleted>` | `fail t=<k|d>`, joined by ` | `
+  `c24 lsn <n> <lk> (<the 14 neg fields> <ccache: c|n> <hook> <pk>){n}`
+     n connections through ONE client session cache to ONE listener Config (server fields of the first step, ticket-key
+     setting lk: a = auto-managed | x = SessionTicketsDisabled | f<i> = SessionTicketKey field | key-index list =
+     SetSessionTicketKeys) whose GetConfigForClient is, per connection, hook: 0 unset | n returns nil | c returns
+     listener.Clone() | p / s returns a new / long-lived Config made of this step's server fields (optional suffix g:
+     certificate through GetCertificate, h: GetCertificate returns nil and Certificates is used - no effect on the model); pk = what is set on the returned Config: i nothing
+     | x SessionTicketsDisabled | f<i> | key-index list
+     → as `seq`
   `c24 mv <min> <max> <peer list>`  → `<version>` | `none`        (Config.mutualVersion)
   `c24 deprio <list>`               → list | `unmodelled`         (deprioritizeAES)
   `c24 sel <pref> <sup> <vers> <ecdheOk> <ecSignOk> <rsaSignOk> <rsaDecryptOk>` → id | `none`
@@ -63,6 +71,41 @@ def parseConns : Nat → List String → Option (List Conn)
     | some k, some ks => some (k :: ks)
     | _, _ => none
 
+/-- `a` / `i` = nothing set, `x` = tickets disabled, `f<i>` / list = explicit keys -/
+def parseKeyCfg (s : String) : Option (Option KeyCfg) :=
+  if s == "a" || s == "i" then some none
+  else if s == "x" then some (some { disabled := true, keys := [] })
+  else if s.startsWith "f" then
+    match (s.drop 1).toString.toNat? with
+    | some k => some (some { disabled := false, keys := [k] })
+    | none => none
+  else match parseList s with
+    | some (some (k :: ks)) => some (some { disabled := false, keys := k :: ks })
+    | _ => none
+
+def parseHook (s : String) : Option Hook :=
+  let h := if (s.endsWith "g" || s.endsWith "h") && s.length == 2 then (s.take 1).toString else s
+  if h == "0" then some .unset else if h == "n" then some .retNil else if h == "c" then some .clone
+  else if h == "p" || h == "s" then some .fresh else none
+
+def parseLStep : List String → Option LStep
+  | [cmin, cmax, cs, cf, cc, ca, smin, smax, ss, sp, sc, sa, sk, sr, cch, hk, pk] =>
+    match parseConn [cmin, cmax, cs, cf, cc, ca, smin, smax, ss, sp, sc, sa, sk, sr, cch, "x"], parseHook hk, parseKeyCfg pk with
+    | some k, some h, some pk =>
+      -- hooks that return no Config take no key setting
+      if (h == .unset || h == .retNil) && pk.isSome then none
+      else some { c := k.c, s := k.s, useCache := k.useCache, hook := h, pk }
+    | _, _, _ => none
+  | _ => none
+
+def parseLSteps : Nat → List String → Option (List LStep)
+  | 0, [] => some []
+  | 0, _ :: _ => none
+  | n + 1, l =>
+    match parseLStep (l.take 17), parseLSteps n (l.drop 17) with
+    | some k, some ks => some (k :: ks)
+    | _, _ => none
+
 def showEv : CacheEv → String
   | .keep => "k" | .put => "p" | .del => "d"
 
@@ -85,6 +128,17 @@ def handle (args : List String) : String :=
         match (runSeq none ks).mapM showStep with
         | none => "unmodelled"
         | some l => " | ".intercalate l
+  | "lsn" :: n :: lk :: rest =>
+    match n.toNat?, parseKeyCfg lk with
+    | some n, some lk =>
+      if n == 0 || n > 8 then "bad-op" else
+      match parseLSteps n rest with
+      | some (st :: sts) =>
+        match (runLsn st.s (lk.getD { disabled := false, keys := [] }) none (st :: sts)).mapM showStep with
+        | none => "unmodelled"
+        | some l => " | ".intercalate l
+      | _ => "bad-op"
+    | _, _ => "bad-op"
   | ["neg", cmin, cmax, cs, cf, cc, ca, smin, smax, ss, sp, sc, sa, sk, sr] =>
     match cmin.toNat?, cmax.toNat?, parseList cs, parseBool cf, parseList cc, parseList ca,
           smin.toNat?, smax.toNat?, parseList ss, parseBool sp, parseList sc, parseList sa, parseKey sk, parseCanary sr with
